@@ -17,8 +17,6 @@ ASSUMPTIONS = ["states in bounds",
                "re-parameterisation and proportionality only for R^n, SO(2), SO(3), SE(2), SE(3), time, torus and weighted "
                "compounds of them; never for discrete / hybrid spaces",
                "antipodal ties may go either way",
-               "Dubins / Reeds-Shepp: the interpolated curve leaves the R^2 box by construction, only the heading's "
-               "bounds are judged",
                "tolerance (logged per space): 2e-6 for the micro-unit rounding, + 4.5e-5 x weight for spaces containing "
                "SO(3) (its distance is 0 above |<p,q>| > 1 - 1e-9)"]
 
